@@ -5,8 +5,8 @@ C07 over the rendered TEXT (line-granular damage).  `Props/C07.lean` states the 
 are the lines of `ofileOf F`, which is `wf`.  Two side conditions the C01 grammar does not need appear: the free header
 lines 2 and 3 must not look like an event line to `set_num_events` (`hdrNotEvent`), the first JETSCAPE line must not contain
 `sigmaGen` — a file cut right behind such a line would be accepted.
-The byte-granular statements (`oscar_truncated_bytes`, `jetscape_truncated_bytes`) are NOT closed: they need the observations
-of every proper prefix of a rendered line (`prefixHyp`); `Lemmas/ClassifyPrefix.lean` proves the cheap part.
+The byte-granular statements for rendered text are in `Props/C07/Bytes.lean` (`oscar_truncated_bytes_text`,
+`jetscape_truncated_bytes_text`).
 -/
 import SparkxVerif.Props.C07
 import SparkxVerif.Lemmas.ClassifyDamage
